@@ -7,6 +7,7 @@ import EG.StepX
 import EG.Single
 import EG.SingleCfg
 import EG.Pickle
+import EG.PickleLoad
 /-
   Main — line-protocol driver of the mirror model M.
   One operation per input line, one answer line per operation
@@ -150,6 +151,40 @@ def pkAnswer (skel : Bool) (root heap : String) : Option String :=
       let showE : Pk.Event → String
         | .expand o => s!"E{o}" | .atom o => s!"A{o}" | .hit o => s!"H{o}" | .memo o => s!"M{o}" | .popget _ => "P"
       some ("ok " ++ ",".intercalate (tr.map showE))
+  | _, _ => none
+
+/-- C10, loading side: the queue machine's stream for the abstract heap is fed to the abstract
+    unpickler of EG.PickleLoad; the answer lists the heap it builds (`ref=kind|before|after`, values
+    `a` = atom, `rN` = reference) and the value left on the stack.  Tuple-like nodes get kind 1, the
+    others kind 0 (the instrumented pickler does not report kinds), so `tupK k = (k == 1)`. -/
+def pkLoadAnswer (root heap : String) : Option String :=
+  let entries : Option (List (Nat × Pk.Node)) := (heap.splitOn ";").mapM fun e =>
+    match e.splitOn "=" with
+    | [i, d] => do
+      let i ← i.toNat?
+      if d == "a" then pure (i, Pk.Node.atom 0) else
+      match d.splitOn ":" with
+      | [t, _, bs, as] => do
+        let bs ← parseListWith String.toNat? bs
+        let as ← parseListWith String.toNat? as
+        pure (i, Pk.Node.node (t == "t") (if t == "t" then 1 else 0) bs as)
+      | _ => none
+    | _ => none
+  match root.toNat?, entries with
+  | some root, some es =>
+    let H : Pk.Heap := fun o => match es.find? (·.1 == o) with | some (_, n) => n | none => .atom 0
+    let fuel := 4 * (es.foldl (fun a (_, n) => a + (match n with | .atom _ => 1 | .node _ _ b c => 4 + b.length + c.length)) 4) + 16
+    match Pk.nrDump H (fuel * (es.length + 2)) root with
+    | none => some "err OutOfFuel"
+    | some (out, _) =>
+      match Pk.vmLoad (fun k => k == 1) out with
+      | none => some "err LoadFailed"
+      | some (v, S) =>
+        let showV : Pk.Val → String := fun v => match v with | .atom _ => "a" | .ref r => s!"r{r}"
+        let nodes := (List.range S.next).map fun r =>
+          let n := S.heap r
+          s!"{r}={n.kind}|" ++ ",".intercalate (n.before.map showV) ++ "|" ++ ",".intercalate (n.after.map showV)
+        some ("ok root=" ++ showV v ++ " " ++ ";".intercalate nodes)
   | _, _ => none
 
 /-- `key=value` options after the positional tokens -/
@@ -379,6 +414,8 @@ def step (st : DState) (line : String) : DState × String :=
     match pkAnswer false root heap with | some a => (st, a) | none => bad
   | "pkskel" :: root :: heap :: _ =>
     match pkAnswer true root heap with | some a => (st, a) | none => bad
+  | "pkload" :: root :: heap :: _ =>
+    match pkLoadAnswer root heap with | some a => (st, a) | none => bad
   | ["tsnew", c, a] =>
     match parseId 'C' c, parseId 'A' a with
     | some c, some a =>
